@@ -404,6 +404,9 @@ func (v *Verifier) findFunc(pkg *ssa.Package, name string) *ssa.Function {
 func (v *Verifier) VerifyFunc(pkg *ssa.Package, c *Contract, pool *Pool) (res *FuncResult) {
 	rel := strings.TrimPrefix(pkg.Pkg.Path(), "github.com/consensys/gnark-crypto/")
 	res = &FuncResult{Func: rel + "." + c.Func, Layer: c.Layer, Tags: v.tags}
+	if c.Variant != "" {
+		res.Func += "[" + c.Variant + "]"
+	}
 	if strings.HasPrefix(c.Func, "(") {
 		res.Status = "assumed"
 		res.Reason = "interface method contract: " + c.Assumed
@@ -482,6 +485,16 @@ func (v *Verifier) VerifyFunc(pkg *ssa.Package, c *Contract, pool *Pool) (res *F
 		parts = all
 	}
 	v.cutFired = map[int]bool{}
+	if c.Variant != "" {
+		// the variant is part of the name of every obligation (through the partition label)
+		for i := range parts {
+			if parts[i].label == "" {
+				parts[i].label = c.Variant
+			} else {
+				parts[i].label = c.Variant + ";" + parts[i].label
+			}
+		}
+	}
 	for _, p := range parts {
 		res.Partitions = append(res.Partitions, p.label)
 		func() {
@@ -839,6 +852,25 @@ func (v *Verifier) runPartition(pkg *ssa.Package, fn *ssa.Function, c *Contract,
 	se := &SpecEnv{fr: fr, st: st, old: st, vars: fr.params, pkg: pkg, fn: fn}
 	// ghost parameters (free ring / integer variables) and entry parametrisation of the inputs:
 	// "let p.X = px*p.Z*p.Z" substitutes the term into the entry state, so that no hypothesis remains
+	for pn, texpr := range c.DynTypes {
+		// "dyntype p T": the interface-typed parameter p holds a value of dynamic type T in this variant
+		var prm *ssa.Parameter
+		for _, q := range fn.Params {
+			if q.Name() == pn {
+				prm = q
+			}
+		}
+		if prm == nil {
+			unsup("dyntype %s: no such parameter", pn)
+		}
+		tv, err := types.Eval(v.fset, pkg.Pkg, fn.Pos(), texpr)
+		if err != nil || tv.Type == nil {
+			unsup("dyntype %s %s: %v", pn, texpr, err)
+		}
+		nv := &IfaceV{T: tv.Type, V: v.symValue(pn+"^", tv.Type, true)}
+		env[prm] = nv
+		fr.params[pn] = nv
+	}
 	for _, nl := range c.Nullable {
 		// a pointer parameter that may be nil (an optional pool): its value is nil or the object built for it
 		isParam := false
@@ -980,13 +1012,24 @@ func (v *Verifier) runPartition(pkg *ssa.Package, fn *ssa.Function, c *Contract,
 		if err != nil {
 			unsup("modifies %q: %v", lv, err)
 		}
-		switch q := se.eval(e.Parts[0]).(type) {
+		mv := se.eval(e.Parts[0])
+		viaIface := false
+		if iv, isI := mv.(*IfaceV); isI && iv.V != nil {
+			mv = iv.V // an interface-typed parameter of known dynamic type (dyntype): what the pointer in it points to
+			viaIface = true
+		}
+		switch q := mv.(type) {
 		case *PtrV:
 			if q.Obj != nil {
 				v.allowed = append(v.allowed, allowedLoc{q.Obj, q.Path})
 				// a cell holding a map (or another object whose contents are not modelled): the map itself
 				if cv := v.content0(st, q.Obj); cv != nil {
 					if inner, ok := v.getPath(cv, q.Path).(*PtrV); ok && inner.Obj != nil && inner.Obj.Unmodelled {
+						v.allowed = append(v.allowed, allowedLoc{inner.Obj, nil})
+					}
+					// a cell holding a slice whose contents are not modelled (a slice of slices): its backing array too
+					if inner, ok := v.getPath(cv, q.Path).(*SliceV); ok && inner.Obj != nil && (inner.Obj.Unmodelled || viaIface) {
+						// (for a destination handed over as an interface value: the slice variable and its elements)
 						v.allowed = append(v.allowed, allowedLoc{inner.Obj, nil})
 					}
 				}
